@@ -59,7 +59,37 @@ impl DivSpecImpl for R {
     open spec fn div_req(self, rhs: R) -> bool { true }
     open spec fn div_spec(self, rhs: R) -> R { r_of(rdiv(self.v(), rhs.v())) }
 }
-// reference operand forms the std float types also offer (f64 - &f64 ...)
+// reference operand forms the std float types also offer (f64 op &f64, &f64 op f64, &f64 op &f64)
+impl<'a> Add<&'a R> for R {
+    type Output = R;
+    #[verifier::external_body]
+    fn add(self, rhs: &'a R) -> (r: R) { R { x: self.x + rhs.x } }
+}
+impl<'a> AddSpecImpl<&'a R> for R {
+    open spec fn obeys_add_spec() -> bool { true }
+    open spec fn add_req(self, rhs: &'a R) -> bool { true }
+    open spec fn add_spec(self, rhs: &'a R) -> R { r_of(self.v() + rhs.v()) }
+}
+impl<'a> Add<R> for &'a R {
+    type Output = R;
+    #[verifier::external_body]
+    fn add(self, rhs: R) -> (r: R) { R { x: self.x + rhs.x } }
+}
+impl<'a> AddSpecImpl<R> for &'a R {
+    open spec fn obeys_add_spec() -> bool { true }
+    open spec fn add_req(self, rhs: R) -> bool { true }
+    open spec fn add_spec(self, rhs: R) -> R { r_of(self.v() + rhs.v()) }
+}
+impl<'a> Add<&'a R> for &'a R {
+    type Output = R;
+    #[verifier::external_body]
+    fn add(self, rhs: &'a R) -> (r: R) { R { x: self.x + rhs.x } }
+}
+impl<'a> AddSpecImpl<&'a R> for &'a R {
+    open spec fn obeys_add_spec() -> bool { true }
+    open spec fn add_req(self, rhs: &'a R) -> bool { true }
+    open spec fn add_spec(self, rhs: &'a R) -> R { r_of(self.v() + rhs.v()) }
+}
 impl<'a> Sub<&'a R> for R {
     type Output = R;
     #[verifier::external_body]
@@ -69,6 +99,86 @@ impl<'a> SubSpecImpl<&'a R> for R {
     open spec fn obeys_sub_spec() -> bool { true }
     open spec fn sub_req(self, rhs: &'a R) -> bool { true }
     open spec fn sub_spec(self, rhs: &'a R) -> R { r_of(self.v() - rhs.v()) }
+}
+impl<'a> Sub<R> for &'a R {
+    type Output = R;
+    #[verifier::external_body]
+    fn sub(self, rhs: R) -> (r: R) { R { x: self.x - rhs.x } }
+}
+impl<'a> SubSpecImpl<R> for &'a R {
+    open spec fn obeys_sub_spec() -> bool { true }
+    open spec fn sub_req(self, rhs: R) -> bool { true }
+    open spec fn sub_spec(self, rhs: R) -> R { r_of(self.v() - rhs.v()) }
+}
+impl<'a> Sub<&'a R> for &'a R {
+    type Output = R;
+    #[verifier::external_body]
+    fn sub(self, rhs: &'a R) -> (r: R) { R { x: self.x - rhs.x } }
+}
+impl<'a> SubSpecImpl<&'a R> for &'a R {
+    open spec fn obeys_sub_spec() -> bool { true }
+    open spec fn sub_req(self, rhs: &'a R) -> bool { true }
+    open spec fn sub_spec(self, rhs: &'a R) -> R { r_of(self.v() - rhs.v()) }
+}
+impl<'a> Mul<&'a R> for R {
+    type Output = R;
+    #[verifier::external_body]
+    fn mul(self, rhs: &'a R) -> (r: R) { R { x: self.x * rhs.x } }
+}
+impl<'a> MulSpecImpl<&'a R> for R {
+    open spec fn obeys_mul_spec() -> bool { true }
+    open spec fn mul_req(self, rhs: &'a R) -> bool { true }
+    open spec fn mul_spec(self, rhs: &'a R) -> R { r_of(rmul(self.v(), rhs.v())) }
+}
+impl<'a> Mul<R> for &'a R {
+    type Output = R;
+    #[verifier::external_body]
+    fn mul(self, rhs: R) -> (r: R) { R { x: self.x * rhs.x } }
+}
+impl<'a> MulSpecImpl<R> for &'a R {
+    open spec fn obeys_mul_spec() -> bool { true }
+    open spec fn mul_req(self, rhs: R) -> bool { true }
+    open spec fn mul_spec(self, rhs: R) -> R { r_of(rmul(self.v(), rhs.v())) }
+}
+impl<'a> Mul<&'a R> for &'a R {
+    type Output = R;
+    #[verifier::external_body]
+    fn mul(self, rhs: &'a R) -> (r: R) { R { x: self.x * rhs.x } }
+}
+impl<'a> MulSpecImpl<&'a R> for &'a R {
+    open spec fn obeys_mul_spec() -> bool { true }
+    open spec fn mul_req(self, rhs: &'a R) -> bool { true }
+    open spec fn mul_spec(self, rhs: &'a R) -> R { r_of(rmul(self.v(), rhs.v())) }
+}
+impl<'a> Div<&'a R> for R {
+    type Output = R;
+    #[verifier::external_body]
+    fn div(self, rhs: &'a R) -> (r: R) { R { x: self.x / rhs.x } }
+}
+impl<'a> DivSpecImpl<&'a R> for R {
+    open spec fn obeys_div_spec() -> bool { true }
+    open spec fn div_req(self, rhs: &'a R) -> bool { true }
+    open spec fn div_spec(self, rhs: &'a R) -> R { r_of(rdiv(self.v(), rhs.v())) }
+}
+impl<'a> Div<R> for &'a R {
+    type Output = R;
+    #[verifier::external_body]
+    fn div(self, rhs: R) -> (r: R) { R { x: self.x / rhs.x } }
+}
+impl<'a> DivSpecImpl<R> for &'a R {
+    open spec fn obeys_div_spec() -> bool { true }
+    open spec fn div_req(self, rhs: R) -> bool { true }
+    open spec fn div_spec(self, rhs: R) -> R { r_of(rdiv(self.v(), rhs.v())) }
+}
+impl<'a> Div<&'a R> for &'a R {
+    type Output = R;
+    #[verifier::external_body]
+    fn div(self, rhs: &'a R) -> (r: R) { R { x: self.x / rhs.x } }
+}
+impl<'a> DivSpecImpl<&'a R> for &'a R {
+    open spec fn obeys_div_spec() -> bool { true }
+    open spec fn div_req(self, rhs: &'a R) -> bool { true }
+    open spec fn div_spec(self, rhs: &'a R) -> R { r_of(rdiv(self.v(), rhs.v())) }
 }
 impl Neg for R {
     type Output = R;
